@@ -740,8 +740,44 @@ func (x *Exec) applyContract(s *State, c *Contract, call *ssa.CallCommon, args [
 			s.heap["$alloc"] = smt.Store(cur, tv.T, smt.True)
 		}
 	}
+	// ... and so is every object the contract calls fresh(...)
+	for _, en := range c.Ensures {
+		for _, fe := range freshArgs(en.E, nil) {
+			func() {
+				defer func() { recover() }()
+				v := x.eval(postEnv, fe)
+				if v.T != nil && v.T.Sort == smt.Ref {
+					cur, ok := s.heap["$alloc"]
+					if !ok {
+						cur = x.entryAlloc()
+					}
+					x.E.HeapSorts["$alloc"] = smt.Arr(smt.Ref, smt.Bool)
+					s.heap["$alloc"] = smt.Store(cur, v.T, smt.True)
+				}
+			}()
+		}
+	}
 	_ = sig
 	return resultVal(sig, vals), true
+}
+
+// freshArgs collects the arguments of fresh(...) applications in a spec expression.
+func freshArgs(e spec.Expr, out []spec.Expr) []spec.Expr {
+	switch e := e.(type) {
+	case *spec.Call:
+		if id, ok := e.Fun.(*spec.Ident); ok && id.Name == "fresh" && len(e.Args) == 1 {
+			return append(out, e.Args[0])
+		}
+		for _, a := range e.Args {
+			out = freshArgs(a, out)
+		}
+	case *spec.Binary:
+		out = freshArgs(e.X, out)
+		out = freshArgs(e.Y, out)
+	case *spec.Unary:
+		out = freshArgs(e.X, out)
+	}
+	return out
 }
 
 func shortObjName(f *types.Func) string {
